@@ -89,6 +89,10 @@ func init() {
 			{Plugin: "crash", Func: "mobius.(*ThreadedNewsYAML).Load", Opts: "loader"},
 			{Plugin: "crash", Func: "mobius.(*FlatNews).Reload", Opts: "loader"},
 			{Plugin: "crash", Func: "mobius.(*BanFile).Load", Opts: "loader"},
+			{Plugin: "sites", Func: "mobius.(*ThreadedNewsYAML).DeleteNewsItem", Kinds: []string{"post"}},
+			{Plugin: "sites", Func: "mobius.(*ThreadedNewsYAML).DeleteArticle", Kinds: []string{"post"}},
+			{Plugin: "sites", Func: "mobius.(*ThreadedNewsYAML).PostArticle", Kinds: []string{"post"}},
+			{Plugin: "sites", Func: "mobius.(*ThreadedNewsYAML).CreateGrouping", Kinds: []string{"post"}},
 		},
 		Decided: []string{
 			"for every persistent update (threaded news, message board, ban list, account create / update / delete): on every path of the real control flow a non-atomic write goes to a temporary name only, a temporary file replaces the live file only after its write returned nil, temporary files are truncated when opened, and success is reported only after the atomic commit step (rename into place / remove)",
@@ -134,6 +138,8 @@ func init() {
 			{Plugin: "sites", Func: "hotline.(*ClientConn).Authenticate", Kinds: siteKinds},
 			{Plugin: "handler-contract", Func: "mobius.HandleDeleteUser", Kinds: []string{"site"}},
 			{Plugin: "handler-contract", Func: "mobius.HandleListUsers", Kinds: []string{"site", "inv-step", "inv-init"}},
+			// the login that is checked is the login that was sent (no normalisation the account table does not share)
+			{Plugin: "sites", Func: "hotline.(*Server).handleNewConnection", Kinds: []string{"site"}},
 			{Plugin: "handler-contract", Func: "mobius.HandleUpdateUser", Kinds: []string{"site"}},
 			{Plugin: "passwords", Func: "mobius.HandleSetUser"},
 			{Plugin: "handler-contract", Func: "mobius.HandleSetUser", Kinds: []string{"site"}},
@@ -346,6 +352,8 @@ func init() {
 		Items: append([]Item{
 			{Plugin: "sites", Func: "hotline.(*Server).sendTransaction", Kinds: siteKinds},
 			{Plugin: "sites", Func: "hotline.sendBanMessage", Kinds: siteKinds},
+			// every queued transaction is sent once, by a goroutine that owns it
+			{Plugin: "contain", Opts: "dispatcher"},
 		}, fnItems(nil, "hotline.(*ClientConn).NewReply", "hotline.(*ClientConn).NewErrReply", "hotline.NewTransaction", "hotline.(*Transaction).Read", "hotline.(*Transaction).Size", "hotline.NewField", "hotline.(*Field).Read", "hotline.(*MemClientMgr).Add", "hotline.(*MemClientMgr).Get")...),
 		Decided: []string{
 			"Transaction.Read serialises without consuming: fields and their cursors are untouched, so a transaction that is broadcast, or read in several pieces, is whole for every recipient (frame obligations of Read and of its field loop)",
@@ -360,6 +368,7 @@ func init() {
 		Items: append(fnItems(nil, "hotline.(*UserFlags).IsSet", "hotline.(*MemClientMgr).Add", "hotline.(*MemClientMgr).Delete", "hotline.(*MemClientMgr).Get", "hotline.(*MemClientMgr).List"),
 			Item{Plugin: "handler-contract", Func: "mobius.HandleSetClientUserInfo", Kinds: []string{"site"}},
 			Item{Plugin: "handler-contract", Func: "mobius.HandleTranAgreed", Kinds: []string{"site"}},
+			Item{Plugin: "handler-contract", Func: "mobius.HandleSendInstantMsg", Kinds: []string{"site"}},
 			Item{Plugin: "sites", Func: "hotline.(*ClientConn).NotifyOthers", Kinds: []string{"site", "inv-step", "inv-init"}},
 			Item{Plugin: "sites", Func: "hotline.(*ClientConn).Disconnect", Kinds: []string{"site", "post", "inv-step", "inv-init"}},
 			Item{Plugin: "sites", Func: "hotline.(*ClientConn).SendAll", Kinds: []string{"site", "inv-step", "inv-init"}},
@@ -385,7 +394,8 @@ func init() {
 			{Func: "hotline.NewAccount"},
 			// an edit stores (in the table and, marshalled, on disk) exactly the bitmap it was given
 			{Func: "mobius.(*YAMLAccountManager).Update"}, {Func: "mobius.(*YAMLAccountManager).Create"},
-			{Plugin: "handler-contract", Func: "mobius.HandleSetUser", Kinds: []string{"site"}}},
+			{Plugin: "handler-contract", Func: "mobius.HandleSetUser", Kinds: []string{"site"}},
+			{Plugin: "handler-contract", Func: "mobius.HandleUpdateUser", Kinds: []string{"site"}}},
 		Decided: []string{
 			"YAMLAccountManager.Update / Create: on success the table entry under the (new) login carries the given access bitmap unchanged -- all 64 bits -- and it is that account which is marshalled and written atomically",
 			"the account loader (including the migration of legacy-format files) never sets a privilege bit itself: what a file grants is what UnmarshalYAML decoded",
